@@ -93,6 +93,12 @@ theorem intersect_sub_union_edges (a b : NodeList) (s t d) (h : (a.intersect b).
   rw [union_edges, union_ids, union_ids]
   grind
 
+/-- greatest lower bound: a list whose nodes are nodes of both operands has only nodes of the
+    intersection (with `intersect_nodes`, the intersection is the meet of the node sets) -/
+theorem intersect_glb_nodes (a b c : NodeList) (ha : ∀ x, x ∈ c.ids → x ∈ a.ids)
+    (hb : ∀ x, x ∈ c.ids → x ∈ b.ids) (x : String) (h : x ∈ c.ids) : x ∈ (a.intersect b).ids := by
+  rw [intersect_ids]; exact ⟨ha x h, hb x h⟩
+
 /-- idempotent: same nodes, the roots that name a node, the edges between present nodes -/
 theorem intersect_idem (a : NodeList) :
     (∀ x, x ∈ (a.intersect a).ids ↔ x ∈ a.ids) ∧
